@@ -328,3 +328,8 @@ package base
 //@ func (m *SlidingWindowMetric) GetSum(event) r
 //@   pure
 //@   assumed
+
+// recording the peak of the in-flight gauge only touches window internals
+//@ func (bla *BucketLeapArray) UpdateConcurrency(concurrency)
+//@   assumed
+//@   modifies allfields(BucketWrap), allfields(MetricBucket), allfields(AtomicBucketWrapArray)
